@@ -79,6 +79,38 @@ def prove_lemmas(pid, timeout_ms):
     return out
 
 
+BOUNDED_STANDINS = {
+    # property -> bounded native checks (never counted as proved; a disagreement is a concrete failing input)
+    'C07': [dict(name='expression-parser', script='pyvc/native/bounded_c07.py', quick=['4'], thorough=['5'],
+                 what='the recursive-descent parser (_parse_e.._parse_e4, _match, _lexical_analysis): every token sequence '
+                      'up to the bound over a 17-symbol alphabet, real parser+evaluator against a reference evaluator '
+                      'written from the precedence table of the statement',
+                 why='list-mutating recursive descent over regex-lexed tokens is outside the VC generator\'s subset')],
+}
+
+
+def run_bounded(pid, tier):
+    import subprocess
+    out = []
+    for b in BOUNDED_STANDINS.get(pid, []):
+        os.makedirs(os.path.join(VERIF, 'replays', pid), exist_ok=True)
+        res_file = os.path.join(VERIF, 'replays', pid, f'bounded_{b["name"]}.json')
+        env = dict(os.environ, PYTHONPATH=os.environ.get('PYVC_REPO_SRC', '/repo/src'))
+        t0 = time.time()
+        p = subprocess.run(['/venv/bin/python', os.path.join(VERIF, b['script'])] + b[tier] + [res_file],
+                           capture_output=True, text=True, env=env, timeout=3000)
+        info = {}
+        try:
+            info = json.load(open(res_file))
+        except Exception:
+            pass
+        out.append(dict(name=b['name'], what=b['what'], why=b['why'], bound=f'max tokens {b[tier][0]}', rc=p.returncode,
+                        cases=info.get('cases'), nontrivial=info.get('wellformed_with_3_or_more_tokens'),
+                        disagreements=info.get('disagreements', []), result_file=res_file, time=time.time() - t0,
+                        stdout=p.stdout[-2000:], stderr=p.stderr[-2000:]))
+    return out
+
+
 def known_findings():
     p = os.path.join(VERIF, 'known_findings.json')
     if os.path.exists(p):
@@ -118,6 +150,8 @@ def run(pid, tier, seed=0, jobs=None, only=None, verbose=False):
         outs = [_work(t) for t in tasks]
     lemma_results = prove_lemmas(pid, timeout_ms)
     res = summarise(pid, tier, seed, outs, lemma_results, assumed, time.time() - t0, verbose)
+    res['bounded'] = run_bounded(pid, tier)
+    res['wall'] = time.time() - t0
     if pid == 'C15':
         from pyvc.audit_c15 import run_audit
         sites, inferred = run_audit(_REPO)
